@@ -7,6 +7,22 @@ CHECKS = {
   text="Coq theorems C01_rules / C01_rules_nodup: for EVERY position the executable enumeration legal_moves is exactly the set of moves legal under the rules spec (geometry, occupancy, castling conditions, en passant, own king safe afterwards), duplicate-free. The engine's generator is tied to that proved oracle by differential runs: constructed positions (pins x en passant x checks x castling x promotions templates, filtered by the extracted valid_position = the property's quantifier), lock-step continuations and model-driven games; every move list compared as a multiset.",
   note="The generator ALGORITHM (movegen.cpp) is not yet refined to the spec by a theorem (generator_refinement: partial in the evidence): its tie is the correspondence. Trusted: Coq kernel, extraction (ExtrOcamlBasic), both drivers, FEN parsing on both sides (C16). No axioms.",
   tech="Coq proof of the rules oracle (sound, complete, NoDup) + differential correspondence on generated positions"),
+ "C02": dict(
+  text="Algorithmic Coq model PositionRep.do_move (board, piece lists with the exact append / swap-remove order, both bitboard families, rights, ep, uint8 clock, ply, five key components, history) tied to the code by comparing EVERY private field after every ply of generated games; the rules-level result Rules.make_move (all six FEN fields) is compared with the engine's FEN after every ply. Theorems so far: spec-level facts (castling keeps the clock running, side alternates); the refinement theorem do_move -> make_move is in progress (see evidence: statements).",
+  note="Partial: the all-inputs statement currently rests on the spec + exact correspondence of the algorithmic model; the refinement proof is not finished. Hypotheses: clock < 255 (uint8 wrap is explicit in the model), game within the history capacity. No axioms.",
+  tech="Coq algorithmic model + rules spec; differential correspondence on every field; refinement proof in progress"),
+ "C03": dict(
+  text="Theorem C03_null: do_null_move followed by undo_null_move restores the ENTIRE engine state (every field, all five key components) for every Zobrist table. Make/unmake of ordinary moves: the algorithmic model undo_move/do_move is tied to the code on every field after every step of random nested make/unmake scripts (null moves included), and the property itself (all observables incl. legal moves, static evaluation, FEN, keys, repetition answers equal before/after) is checked on the implementation for every matched pair.",
+  note="Partial: the general undo(do(s)) theorem for ordinary moves is in progress; until then that half rests on the correspondence of the algorithmic model and the direct before/after comparison. No axioms.",
+  tech="Coq proof (null-move round trip, key algebra) + algorithmic-model correspondence on nested make/unmake scripts"),
+ "C04": dict(
+  text="Theorems for every Zobrist table: key updates are involutions (toggle twice / flip twice = identity), the key is a function of its five components. Tie: after every ply of games rich in transpositions the incremental key and pawn key equal the model's, equal the keys of the position reloaded from its FEN (from-scratch init), and equal the key of every earlier occurrence of the same (placement, side, rights, ep); pawn keys agree whenever pawn placement agrees.",
+  note="The second half of the property (different positions get different keys) is a probability statement about the PRNG, not a theorem (DESIGN.md); the run reports observed collisions as validation only. The incremental = scratch invariant as a theorem over do/undo is in progress. No axioms.",
+  tech="Coq proof of XOR key algebra over abstract tables + differential / metamorphic correspondence"),
+ "C07": dict(
+  text="History-level spec in Coq (positions compared by placement, side, rights, ep; insufficient material = bare kings or one minor; mate/stalemate from the proved legal_moves). Theorems: mate and stalemate are exclusive and equivalent to 'no legal move' (via C01_rules). Tie: after every ply of model-driven games (repetition shuffles, rule-50 crossings, material run-downs, mates, stalemates) the engine's seven answers equal the spec computed from the rules-level history (not from keys).",
+  note="Partial: the refinement 'key-history predicates = history spec' (under no key collision) is stated in DESIGN.md and not yet proved; assumptions: clock < 256, game within history capacity. No axioms.",
+  tech="Coq history-level spec + proved mate/stalemate characterisation; differential correspondence along generated games"),
  "C11": dict(
   text="Coq theorems C11_rook/C11_bishop/C11_queen: for every square and EVERY occupancy the model of init_*_magics + slider_attack<> (instantiated with the magics and index widths re-extracted from the working tree on every run) returns exactly the ray-walk-until-first-blocker set; proved by an exhaustive kernel sweep over all 107,648 table entries lifted to all occupancies by pdep/pext and walk-independence lemmas. Leaper, ray, LINES, FULL_LINES and castling tables: the tables the current code built (dumped each run) are proved equal to their geometric specs entry by entry. Tie: B1 regeneration of Gen/MagicData.v + B2 exhaustive differential run of the real slider_attack<>/tables against the extracted spec.",
   note="Trusted: Coq kernel + vm_compute; dumper.cpp; extraction (ExtrOcamlBasic) and the two drivers; the model of the init loop is hand-written and tied by B2 (exhaustive over the 107,648 relevant subsets + random full occupancies). shift<> is proved linear and single-square pawn attacks exact; no axioms (Print Assumptions: closed under the global context).",
